@@ -213,6 +213,18 @@ func runCheck(o *Options, e *Engine, prop string) *CheckRun {
 	}
 	wg.Wait()
 	run.Results = results
+	for _, lm := range e.cs.Lemmas {
+		if lm.File != "" || len(lm.Ensures) == 0 {
+			continue
+		}
+		if prop != "" && !propsContain(lm.Props, prop) {
+			continue
+		}
+		if re != nil && !re.MatchString("lemma "+lm.Name) {
+			continue
+		}
+		results = append(results, e.verifyLemma(lm))
+	}
 	for _, r := range results {
 		for _, ob := range r.Obls {
 			if prop == "" || propsContain(ob.Props, prop) || ob.Kind != "ensures" {
@@ -221,7 +233,10 @@ func runCheck(o *Options, e *Engine, prop string) *CheckRun {
 		}
 		run.Covers = append(run.Covers, r.Covers...)
 		for _, u := range r.Undecided {
-			run.Undecided = append(run.Undecided, shortName(r.BC.Name())+": "+u)
+			if r.BC != nil {
+				u = shortName(r.BC.Name()) + ": " + u
+			}
+			run.Undecided = append(run.Undecided, u)
 		}
 		for _, t := range r.Trusted {
 			run.Trusted[t] = true
@@ -253,7 +268,36 @@ func runCheck(o *Options, e *Engine, prop string) *CheckRun {
 			sem <- struct{}{}
 			defer func() { <-sem }()
 			q := ob.Query(true)
-			ans, _ := solve(dir, fmt.Sprintf("q%05d", i), q, o.TimeoutS, false)
+			var ans SolverAnswer
+			if ob.IsCover {
+				file := filepath.Join(dir, fmt.Sprintf("q%05d.smt2", i))
+				os.WriteFile(file, []byte(q), 0o644)
+				ans = raceTwo(file, 8)
+			} else if len(ob.cx.splits) > 0 {
+				file := filepath.Join(dir, fmt.Sprintf("q%05d.smt2", i))
+				os.WriteFile(file, []byte(q), 0o644)
+				ans = runOne("z3-new", file, 2)
+			} else {
+				ans, _ = solve(dir, fmt.Sprintf("q%05d", i), q, o.TimeoutS, false)
+			}
+			if ans.Status != "unsat" && ans.Status != "sat" && len(ob.cx.splits) > 0 && !ob.IsCover {
+				// case split: every case must be unsat
+				total := ans.TimeS
+				allUnsat := true
+				for ci, hyp := range ob.cx.splits[0] {
+					ca, _ := solve(dir, fmt.Sprintf("q%05d_c%d", i, ci), ob.QueryCase(true, hyp), o.TimeoutS, false)
+					total += ca.TimeS
+					if ca.Status != "unsat" {
+						allUnsat = false
+						ans = ca
+						break
+					}
+				}
+				if allUnsat {
+					ans = SolverAnswer{Status: "unsat", Solver: "z3-new+split", TimeS: total}
+				}
+				ans.TimeS = total
+			}
 			ob.Solver, ob.TimeS, ob.Output = ans.Solver, ans.TimeS, ans.Output
 			switch {
 			case ob.IsCover:
@@ -278,6 +322,9 @@ func runCheck(o *Options, e *Engine, prop string) *CheckRun {
 	wg2.Wait()
 	// lemmas
 	for _, lm := range e.cs.Lemmas {
+		if lm.File == "" {
+			continue
+		}
 		if prop != "" && !propsContain(lm.Props, prop) {
 			continue
 		}
@@ -573,7 +620,9 @@ func writeJSON(path string, v interface{}) {
 func writeEvidence(o *Options, e *Engine, run *CheckRun, nObl, nDis, nTriv, nBounded, nBoundedDis int, byBackend map[string]int, solverTime float64, violations int, kf []string, wall float64) {
 	var fns []string
 	for _, r := range run.Results {
-		fns = append(fns, shortName(r.BC.Name()))
+		if r.BC != nil {
+			fns = append(fns, shortName(r.BC.Name()))
+		}
 	}
 	sort.Strings(fns)
 	var samples []interface{}
